@@ -44,6 +44,12 @@ func Template(labels map[string]string, v int) corev1.PodTemplateSpec {
 	if v%2 == 1 {
 		t.Annotations = map[string]string{"tv": fmt.Sprint(v)}
 	}
+	if v >= 2 {
+		// several local volumes, one of them named like the usual claim template
+		for _, n := range []string{"cfg", "data"} {
+			t.Spec.Volumes = append(t.Spec.Volumes, corev1.Volume{Name: n, VolumeSource: corev1.VolumeSource{EmptyDir: &corev1.EmptyDirVolumeSource{}}})
+		}
+	}
 	return t
 }
 
